@@ -421,6 +421,19 @@ func c12r5(c *Ctx) {
 			continue
 		}
 		n++
+		// decided by the gateway list in a helper: the returned value is a call that is handed the proxy's gateway names
+		if call, ok := v.(*ssa.Call); ok && len(fn.Params) >= 3 {
+			viaGw := false
+			for _, a := range call.Call.Args {
+				if a == ssa.Value(fn.Params[2]) {
+					viaGw = true
+				}
+			}
+			if sc := call.Call.StaticCallee(); viaGw && sc != nil && sc.Pkg == fn.Pkg {
+				c.Check("a kept match passed the gateway list or the source labels", r.Pos(), true, "")
+				continue
+			}
+		}
 		all := append(append(append([]Edge{}, nilE...), gwE...), lblE...)
 		c.Check("a kept match passed the gateway list or the source labels", r.Pos(), underEdges(fn, b, all),
 			"sourceMatchHTTP can keep a match for a proxy on a path that passed neither the gateway list nor the source-label test: a rule with sourceLabels (and sourceNamespace) is emitted for proxies its labels do not select, and - having no other condition - is taken for a catch-all that cuts off every later rule for them")
